@@ -13,7 +13,8 @@ RULE = ("Cases (layout): 4-14 distinct sensors (pairwise separation >= 1e-3 of t
         "aperture, placed so that 0-4 sensors fall outside and none within 1e-6 x extent of the hull; a permutation, a "
         "translation and a power-of-two scaling. Cases (Monte-Carlo): 2-8 generators with means, standard deviations >= 0, "
         "weights > 0, the four distribution combinations, 1-400 realisations, a seed. Non-trivial = at least one sensor is "
-        "culled and at least one cell is cut by the boundary, or weights and means are unequal; distinct by SHA-1 of the case.")
+        "culled and at least one cell is cut by the boundary, or weights and means are unequal; distinct by SHA-1 of the case."
+        ' Layout patterns: random, grid, cluster, loose line, tight line array (lateral scatter 1e-5-1e-2 of the extent).')
 ASSUMPTIONS = [
     "layouts stay away from degeneracy (duplicate sensors, sensors on the boundary) where nearest-sensor regions are not unique",
     "boundary extents stay below 1e4 so that the code's fixed 1e6 'far point' radius lies outside the boundary (the quantifier's relative-coordinate regime)",
